@@ -128,3 +128,25 @@ func TestCopySourceAuthorizedAsRead(t *testing.T) {
 		t.Fatalf("user1 is denied s3:GetObject on src/secret but obtained its content through CopyObject with source %q", "src/secret?versionId=")
 	}
 }
+
+// An ACL WRITE grant (permission to create and delete objects) lets the
+// grantee write the bucket policy. He grants himself s3:* and denies the owner: the bucket is taken over.
+func TestAclWriteGranteeCannotWriteTheBucketPolicy(t *testing.T) {
+	g := gwtest.Start(t, gwtest.Options{})
+	alice := g.AddUser("alice", "alicesecret", auth.RoleUserPlus)
+	bob := g.AddUser("bob", "bobsecret", auth.RoleUser)
+	g.MustStatus(g.Put(alice, "/abk", nil, map[string]string{"X-Amz-Object-Ownership": "BucketOwnerPreferred"}), 200, "alice creates her bucket")
+	g.MustStatus(g.Put(alice, "/abk?acl", nil, map[string]string{"X-Amz-Grant-Write": "bob"}), 200, "alice grants bob WRITE")
+	g.MustStatus(g.Put(alice, "/abk/private", []byte("alice-private"), nil), 200, "alice puts an object")
+	if r := g.Get(bob, "/abk/private", nil); r.Status/100 == 2 {
+		t.Fatalf("bob has no READ grant, yet GET answered %d", r.Status)
+	}
+	pol := policy(stmt("Allow", "bob", "s3:*", "arn:aws:s3:::abk"), stmt("Allow", "bob", "s3:*", "arn:aws:s3:::abk/*"),
+		stmt("Deny", "alice", "s3:*", "arn:aws:s3:::abk"), stmt("Deny", "alice", "s3:*", "arn:aws:s3:::abk/*"))
+	r := g.Put(bob, "/abk?policy", pol, nil)
+	got := g.Get(bob, "/abk/private", nil)
+	own := g.Get(alice, "/abk/private", nil)
+	if r.Status/100 == 2 || got.Status/100 == 2 {
+		t.Errorf("bob (ACL WRITE only) PUT ?policy: %d; he now reads the owner's object: %d %q; the owner's own GET answers %d", r.Status, got.Status, got.Body, own.Status)
+	}
+}
